@@ -686,6 +686,56 @@ def massesGet (i : Nat) : M (List (Option Rat)) := do
   let s' ← getS
   pure (s'.sys i).masses
 
+/-- `System.atypes`: `tuple(range(1, self.natypes+1))`. -/
+def sysAtypes (i : Nat) : M (List Nat) := do
+  let n ← sysNatypes i
+  pure ((List.range n).map (· + 1))
+
+/-- `sym_dict[symbol] += count` on an association list kept in `sorted(sym_dict)` order. -/
+def addSym (k : String) (c : Nat) : List (String × Nat) → List (String × Nat)
+  | [] => [(k, c)]
+  | (k', c') :: rest =>
+    if k = k' then (k', c' + c) :: rest
+    else if k < k' then (k, c) :: (k', c') :: rest
+    else (k', c') :: addSym k c rest
+
+/-- the loop of `System.composition` over the types `ts`: `none` = "a present type has no symbol"
+    (`return None`); `error index` = `self.symbols[i]` out of range. -/
+def compCounts (nums : List Rat) (syms : List (Option String)) :
+    List Nat → List (String × Nat) → Except Err (Option (List (String × Nat)))
+  | [], d => .ok (some d)
+  | t :: ts, d =>
+    let cnt := (nums.filter (fun q => decide (q = ((t + 1 : Nat) : Rat)))).length
+    if cnt = 0 then compCounts nums syms ts d else
+    match syms[t]? with
+    | none => .error .index
+    | some none => .ok none
+    | some (some sy) => compCounts nums syms ts (addSym sy cnt d)
+
+/-- reduced formula from the sorted counts (`np.gcd.reduce`, `count // gcd`, count 1 not printed). -/
+def compString (d : List (String × Nat)) : String :=
+  let g := d.foldl (fun g kv => Nat.gcd g kv.2) 0
+  d.foldl (fun acc kv => acc ++ kv.1 ++ (if kv.2 / g = 1 then "" else toString (kv.2 / g))) ""
+
+/-- `System.composition` as a function of the atom types, the symbols and `natypes`. -/
+def compOf (nums : List Rat) (syms : List (Option String)) (n : Nat) : Except Err (Option String) :=
+  match compCounts nums syms (List.range n) [] with
+  | .error e => .error e
+  | .ok none => .ok none
+  | .ok (some d) =>
+    -- `np.gcd.reduce([])` is a float and has no gcd loop: TypeError (reachable only with non-integer atom types)
+    if d.isEmpty then .error .type else .ok (some (compString d))
+
+/-- `System.composition` (reads `natypes`, then `symbols`: both pad the stored symbols lazily). -/
+def composition (i : Nat) : M (Option String) := do
+  let n ← sysNatypes i
+  let syms ← symbolsGet i
+  let s ← getS
+  let a ← keyErr ((s.obj (s.sys i).atoms).find "atype")
+  match (arrVal s a).data.mapM Cell.num? with
+  | none => fail .unmodelled
+  | some nums => liftE (compOf nums syms n)
+
 def pbcSet (i : Nat) (value : List Bool) : M Unit :=
   if value.length ≠ 3 then fail .assert else modifySys i (fun y => { y with pbc := value })
 
@@ -796,6 +846,8 @@ inductive Op where
   | massesSet (i : Nat) (l : List (Option Rat))
   | pbcSet (i : Nat) (l : List Bool)
   | sysNatypes (i : Nat)
+  | sysAtypes (i : Nat)
+  | composition (i : Nat)
   | sysPropGet (i : Nat) (key : String) (ix : Option Index)
   | sysPropGetAtoms (i : Nat) (ix : Index)
   | sysPropSet (i : Nat) (key : String) (ix : Option Index) (v : Val) (scale : Bool)
@@ -813,6 +865,8 @@ inductive Out where
   | nat (n : Nat)
   | syms (l : List (Option String))
   | masses (l : List (Option Rat))
+  | nats (l : List Nat)
+  | comp (c : Option String)
 deriving Repr, BEq, DecidableEq
 
 /-- literals of an operation are well-formed (checked by the driver's parser as well). -/
@@ -833,6 +887,7 @@ def Op.idsOk (s : State) : Op → Bool
   | .propSetAtoms o _ src | .setItem o _ src | .extendAtoms o src =>
     decide (o < s.objs.length) && decide (src < s.objs.length)
   | .symbolsGet i | .symbolsSet i _ | .massesGet i | .massesSet i _ | .pbcSet i _ | .sysNatypes i
+  | .sysAtypes i | .composition i
   | .sysPropGet i .. | .sysPropGetAtoms i .. | .sysPropSet i .. | .ixGet i .. =>
     decide (i < s.syss.length)
   | .sysPropSetAtoms i _ src _ => decide (i < s.syss.length) && decide (src < s.objs.length)
@@ -868,6 +923,8 @@ def run (offsetDonor : Bool) : Op → M Out
   | .massesSet i l => do massesSet i l; pure .unit
   | .pbcSet i l => do pbcSet i l; pure .unit
   | .sysNatypes i => do let n ← sysNatypes i; pure (.nat n)
+  | .sysAtypes i => do let l ← sysAtypes i; pure (.nats l)
+  | .composition i => do let c ← composition i; pure (.comp c)
   | .sysPropGet i k ix => do let s ← getS; let v ← propGet (s.sys i).atoms k ix; pure (.val v)
   | .sysPropGetAtoms i ix => do let s ← getS; let n ← propGetAtoms (s.sys i).atoms ix; pure (.obj n)
   | .sysPropSet i k ix v scale => do
